@@ -164,6 +164,14 @@ func runC12(c *hx.Ctx) {
 			}
 			c12Archive(c, sc, i%2, m, es, data)
 		}
+		for _, cm := range zipCorpusModules() {
+			es := []gen.ZipArchEntry{{Name: cm.Path + "@" + cm.Version + "/go.mod", Declared: 9, Content: []byte("module m\n")}}
+			data, err := gen.ZipWriteArchive(nil, es)
+			if err != nil {
+				panic(err)
+			}
+			c12Archive(c, sc, 0, cm, es, data)
+		}
 	}
 	for i := 0; i < c.N(3500); i++ {
 		m := gen.ZipModuleVersion(r)
